@@ -61,6 +61,16 @@ def worker(sh):
         P, Qp = t1.mul(a), t2.mul(b)
         g.add('c.pairing %s %s' % (gc1.aff(P, rng, True), gc2.aff(Qp, rng, True)), 'ref', a, b)
         g.add('c.pairing_cpp %s %s' % (gc1.aff(P, rng, True), gc2.aff(Qp, rng, True)), 'ref', a, b)
+    # points handed over as Jacobian representatives with a chosen z (z = 1, -1, random, and every structured value a sloppy
+    # "already normalised?" test confuses with 1), converted by the library itself and then paired
+    if sh.index < 8:
+        for zk2 in gc2.zkinds():
+            for zk1 in rng.sample(gc1.zkinds(), 2):
+                a, b = rng.randrange(1, R), rng.randrange(1, R)
+                r1, k1 = gc1.rep(t1.mul(a), rng, zk1)
+                r2, k2 = gc2.rep(t2.mul(b), rng, zk2)
+                which = rng.randrange(3) | (4 if rng.random() < 0.5 else 0)
+                g.add('c.pairing_proj %s %s %d' % (r1, r2, which), 'proj', a, b, k1, k2, which)
     # definitional oracle on points whose discrete logs nobody knows (hashed identity point, scripted random G2)
     for _ in range(sh.pick(1, 10) if sh.index < 12 else 0):
         h = rng.getrandbits(384).to_bytes(48, 'big').hex()
@@ -104,6 +114,13 @@ def worker(sh):
                 if e != exp:
                     fail('pairing value is not E0^(ab)', 'value:%s:ref' % op)
                 sh.event(op, cls)
+            elif meta[0] == 'proj':
+                a, b, k1, k2, which = meta[1:]
+                e = C.dec_flat(out[1])
+                entry = ('c.pairing', 'pairing<G2Affine>', 'prepared')[which & 3]
+                if e != gtlib.e0_pow(a * b):
+                    fail('pairing of points converted from Jacobian representatives (z kinds %s, %s) is not E0^(ab)' % (k1, k2), 'value:%s:from-projective' % entry)
+                sh.event(entry, 'from-projective/%s,%s' % (k1, k2))
             elif meta[0] == 'mkP':
                 lastP = gc1.dec_a(out[1])
             elif meta[0] == 'mkQ':
@@ -159,7 +176,7 @@ def run(ctx):
                 'class = (entry point, scalar classes, routes, identity/generic)')
     ctx.extra['configs'] = cfgs
     ctx.assumptions = ['Python integer arithmetic', 'oracle/bls.py definitional pairing (bilinearity self-tested each run)']
-    need = ['c.pairing|c.pairing/', 'pairing<G2Affine>|', 'prepared|', 'c.pairing|definitional/unknown-dlog', 'c.pairing|c.pairing/ref-points/identity',
+    need = ['c.pairing|from-projective/', 'prepared|from-projective/', 'c.pairing|c.pairing/', 'pairing<G2Affine>|', 'prepared|', 'c.pairing|definitional/unknown-dlog', 'c.pairing|c.pairing/ref-points/identity',
             'c.pairing_cpp|c.pairing_cpp/ref-points/']
     for r in need:
         if not any(k.startswith(r) for k in ctx.classes):
